@@ -72,7 +72,7 @@ def run(ctx):
     for idx, case in enumerate(cases):
         for rk in (ROTS if not quick else [ROTS[idx % 4], "haar"]):
             jobs.append({"case": case, "variant": {"rot": rk}, "seed": ctx.seed})
-        if case["alg"] == "row" and case["sh"][0] == case["sh"][1]:
+        if case["alg"] == "row" and len(case["sh"]) == 2 and case["sh"][0] == case["sh"][1]:
             jobs.append({"case": case, "variant": {"rot": "haar", "method": "mf"}, "seed": ctx.seed})
     results = core.pmap(eng.run_variant, jobs, chunksize=8)
     for job, res_ in zip(jobs, results):
